@@ -110,7 +110,24 @@ func (x *exec) step(st *State, in ssa.Instruction) {
 			panic(unsupported("Store through non-pointer"))
 		}
 		x.nilCheck(st, p, ins.Pos(), "store")
-		x.store(st, p, x.get(st, ins.Val))
+		val := x.get(st, ins.Val)
+		// gc reads plain local variables after the calls of a statement (see exec.go, Return)
+		if ld, ok := ins.Val.(*ssa.UnOp); ok && ld.Op == token.MUL && ld.Block() == ins.Block() {
+			if _, isAlloc := ld.X.(*ssa.Alloc); isAlloc {
+				idx := -1
+				for j, bi := range ins.Block().Instrs {
+					if bi == in {
+						idx = j
+					}
+				}
+				if idx >= 0 && callBetween(ins.Block(), ld, idx) {
+					if lp, isPtr := x.get(st, ld.X).(*PtrV); isPtr {
+						val = x.load(st, lp)
+					}
+				}
+			}
+		}
+		x.store(st, p, val)
 	case *ssa.UnOp:
 		x.unop(st, ins)
 	case *ssa.BinOp:
